@@ -16,6 +16,12 @@ def coq_case(name, case, obs):
     a = ci.AGGS[case["agg"]]
     keycol = {"k": 2, "x": 0}[a["keycol"]]
     filt = "None" if case.get("filt") is None else "(Some %s)" % dfc.coq_q(case["filt"])
+    return "Definition %s : case := mkcase %s %s %s\n  %s\n  %s.\n" % (
+        name, a["coq"], filt, "true" if a["quot"] else "false",
+        dfc.coq_batches(case["rows"], case["sizes"], keycol), coq_steps(a, obs))
+
+
+def coq_steps(a, obs):
     steps = []
     for o in obs:
         if o["exc"] is not None:
@@ -25,9 +31,43 @@ def coq_case(name, case, obs):
         if a["square"]:
             v = dfc.canon_map(v, lambda x: x * x)
         steps.append("(Some (%s, %s))" % (dfc.coq_oval(o["state"]), dfc.coq_oval(v)))
-    return "Definition %s : case := mkcase %s %s %s\n  %s\n  %s.\n" % (
-        name, a["coq"], filt, "true" if a["quot"] else "false",
-        dfc.coq_batches(case["rows"], case["sizes"], keycol), dfc.coq_list(steps))
+    return dfc.coq_list(steps)
+
+
+def resume_correspondence(tag, items, shard=200):
+    """items: list of (c06-style case, full obs, cut k, resumed obs).  Returns (mism as_found, mism repaired, unenc, errors)."""
+    d = common.scratch(tag)
+    paths, unenc = [], []
+    for s in range(0, len(items), shard):
+        chunk = items[s:s + shard]
+        p = os.path.join(d, "rcases_%d.v" % (s // shard))
+        live = []
+        with open(p, "w") as f:
+            f.write(HEADER)
+            for j, (c, full, k, resumed) in enumerate(chunk):
+                try:
+                    txt = coq_case("b%d" % (s + j), c, full)
+                    txt += "Definition r%d : rcase := mkrcase b%d %d%%nat %s.\n" % (s + j, s + j, k, coq_steps(ci.AGGS[c["agg"]], resumed))
+                except TypeError:
+                    unenc.append(s + j)
+                    continue
+                f.write(txt)
+                live.append(s + j)
+            f.write("Definition all_cases := [%s].\n" % "; ".join("r%d" % i for i in live))
+            f.write("Eval vm_compute in (rmismatches as_found all_cases).\n")
+            f.write("Eval vm_compute in (rmismatches repaired all_cases).\n")
+        paths.append((p, live))
+    res = common.run_case_files([p for p, _ in paths])
+    m_af, m_rep, errors = [], [], []
+    for p, live in paths:
+        rc, out = res[p]
+        lists = parse_natlists(out) if rc == 0 else []
+        if len(lists) != 2:
+            errors.append((p, out[-2000:]))
+            continue
+        m_af.extend(live[i] for i in lists[0])
+        m_rep.extend(live[i] for i in lists[1])
+    return sorted(m_af), sorted(m_rep), sorted(unenc), errors
 
 
 _NATLIST = re.compile(r"=\s*(\[[^\]]*\]|nil)\s*:\s*list\s+nat", re.S)
